@@ -9,40 +9,80 @@ MANIFEST = {
             "tile it, offsets and More bits are right, a size reduction keeps the byte offset and the SZX on the wire; the received-ranges "
             "structure represents exactly the accepted block numbers (sorted, disjoint, non-adjacent, capacity, exact membership / all-in, refused "
             "insert is a no-op) for every insertion sequence; reassembly of all blocks in any order with any duplicates yields the body; every block "
-            "message coap_add_data_large_internal plans fits the maximum size (first and all follow-up blocks); and for the server's "
-            "single-body Block1 receive automaton (coap_handle_request_put_block: unit conversion after early size reduction, no_more_seen gate, "
-            "with or without Size1): never_wrong_body_partial (any order/duplicates/losses of genuine blocks: whatever is delivered is exactly "
-            "the sender's body) and at_most_once_per_transfer_partial (a delivery releases the receiver state).  TRACE-CHECKED ONLY (real client "
-            "+ real server contexts, virtual clock, drop/duplicate schedules, oracle over the trace; no Lean model): the sender side (lg_xmit, "
-            "retransmission, token substitution/restoration), the client's Block2 receive path, per-block mode, CON/NON, two concurrent "
-            "transfers, MTU bound on every datagram, release callback count, lossless => one delivery + one success response, exhausted "
-            "Confirmable => NACK or error response.  Not covered: Q-Block (RFC 9177), BERT, Block+Observe.",
+            "message coap_add_data_large_internal plans fits the maximum size (first and all follow-up blocks).  RECEIVERS, for every sequence of "
+            "genuine blocks in any order with duplicates and losses: the server's single-body Block1 automaton (coap_handle_request_put_block: "
+            "never_wrong_body_partial, at_most_once_per_transfer_partial) and the CLIENT's Block2 automaton (coap_handle_response_get_block, "
+            "single-body and per-block mode, ETag restart, give-up -> 4.08: never_wrong_body_block2_partial - a delivered body is exactly the "
+            "server's, every delivered block is the exact slice at its offset; at_most_once_block2_partial - delivery releases the lg_crcv, a "
+            "delivered block was not recorded before and is recorded afterwards, completion means every block was recorded; "
+            "per_block_tiles_once_partial - along every run in per-block mode no block is handed over twice in an lg_crcv lifetime and at "
+            "completion all of them have been: the offsets tile the body, each once).  SENDERS (lg_xmit), for every state and every request / response: server_block2_genuine (every Block2 response is "
+            "the slice for the requested NUM/SZX with the right More bit and fits the PDU, a changed size is 4.00), first_block_genuine (first "
+            "Block1 message = slice 0 at the lg_xmit size after both size reductions), client_block1_slices + client_block1_genuine_partial "
+            "(every follow-up Block1 message is the slice for its NUM/SZX, along any response sequence incl. early size renegotiation; More bit "
+            "and position right unless a server asks for a LARGER size), so the slice hypothesis of the receivers is discharged for libcoap "
+            "senders.  RELEASE CALLBACK: adl_release_once (every exit path of coap_add_data_large_internal calls it once or hands it to exactly "
+            "one linked lg_xmit) + release_exactly_once (any create/delete/session-free sequence: never twice, exactly once at session free).  "
+            "request_tag_tells_transfers_apart (lg_srcv lookup keyed by Request-Tag presence AND value, EMPTY tag included).  COMPOSED, Block2: "
+            "never_wrong_body_block2_composed_partial - libcoap server (first block via adlBody on the response path's parameters, "
+            "response_path_params_ok; follow-ups via xmitB2Step; fresh ETag per lg_xmit) "
+            "o network (any loss / duplication / delay / reordering, repeated GETs, time-outs of either side at any moment) o libcoap client, for "
+            "EVERY schedule, with no hypothesis on datagrams: whatever the handler gets is the server's body / an exact slice; "
+            "never_wrong_body_block1_composed_partial - libcoap client (addDataLarge + xmitB1Step, early size renegotiation) o network o libcoap "
+            "server (srcvStep, single-body, 2.31 with the request's SZX or the server's maximum for block 0), EVERY schedule, no hypothesis on "
+            "datagrams: whatever the server's application gets is exactly the client's body.  TRACE-CHECKED ONLY (real client + real server "
+            "contexts, virtual clock, drop/duplicate schedules, oracle over the trace; no Lean model): retransmission timers, token "
+            "substitution/restoration, CON/NON, lossless => one delivery + one success response, exhausted Confirmable => NACK or error response, "
+            "MTU bound on every datagram.  Not covered: Q-Block (RFC 9177), BERT, Block+Observe.",
     "note": "Trusted: Lean kernel (+ propext, Classical.choice, Quot.sound), the T1 extractor, harness/block.c + block_sim.h + sim_core.h, generators, "
-            "the Python trace oracle, the hand transcription M (checked against the compiled code only on the cases run).  SPEC DECISIONS D6 "
-            "(duplicated request datagram = new request), D13, D14, D15 (refusing for lack of room is an explicit failure), D16 (abandoned = "
-            "retransmissions exhausted).  One open finding is reported as KNOWN-FINDING (c09-late-message-raw-token).",
+            "the Python trace oracle, the hand transcriptions M (Model/Block.lean, BlockCrcv.lean, BlockXmit.lean, BlockRtag.lean; checked against the "
+            "compiled code only on the cases run).  SPEC DECISIONS D6 (duplicated request datagram = new request), D13, D14, D15 (refusing for lack "
+            "of room is an explicit failure), D16 (abandoned = retransmissions exhausted).  One open finding is reported as KNOWN-FINDING "
+            "(c09-late-message-raw-token).  Robustness gaps against a NON-libcoap peer (outside the property's quantifier; Lean witnesses + corpus "
+            "lines, not fixed): a server changing SZX mid-transfer or mixing Size2 values makes the client deliver never-written bytes; a server "
+            "asking for a larger Block1 size makes the client skip bytes and leak a PDU.",
     "design_ref": "DESIGN.md §4 C09, design/C09.md",
 }
 LEAN_MODULES = ["CoapVerif.Props.C09"]
 NAMESPACE = "Coap.C09"
 REQUIRED_THEOREMS = ["block_opt_roundtrip", "blocks_tile_body", "rblock_represents", "reassembly_exact", "block_fits_mtu",
-                     "never_wrong_body_partial", "at_most_once_per_transfer_partial"]
+                     "never_wrong_body_partial", "at_most_once_per_transfer_partial",
+                     "never_wrong_body_block2_partial", "at_most_once_block2_partial", "per_block_tiles_once_partial", "server_block2_genuine", "first_block_genuine",
+                     "client_block1_slices", "client_block1_genuine_partial", "adl_release_once", "release_exactly_once",
+                     "request_tag_tells_transfers_apart", "never_wrong_body_block2_composed_partial",
+                     "never_wrong_body_block1_composed_partial", "response_path_params_ok"]
 RULE = ("Layer A: block option values (all single bytes, random 0-3 byte values, boundary NUMs), setup_block_b / coap_write_block_b_opt / "
         "coap_add_data_large_request with the available room around every power of two, slices of bodies whose length is k*2^(szx+4)+{-1,0,1} "
         "for szx 0..6 and random lengths to 64 KiB, every 3-insertion sequence over 5 block numbers plus random longer ones for the received "
         "ranges, coap_block_build_body store sequences, Block1 receive sequences through the real coap_handle_request_put_block with and "
-        "without Size1 in any order with duplicates; Layer B: whole transfers (PUT/Block1, GET/Block2, hand-built Block1 without Size1) "
+        "without Size1 in any order with duplicates, two interleaved transfers told apart by Request-Tag (absent / EMPTY / 1..8 bytes), Block2 "
+        "receive sequences through the real coap_handle_response_get_block (both modes, ETag / Content-Format / Size2 / SZX / More-bit noise), "
+        "sender sequences through the real coap_handle_request_send_block and coap_handle_response_send_block (requests in any order / beyond "
+        "the end / changed size, 2.31 in order / duplicated / renegotiating to a smaller or larger size, error codes); Layer B: whole transfers "
+        "(PUT/Block1 with libcoap's or the application's Request-Tag incl. EMPTY, GET/Block2, hand-built Block1 without Size1) "
         "between a real client and server context under drop/duplicate schedules over the first 4-13 datagrams, MTU 64..1500, SZX asked "
-        "by either side, CON/NON, single-body/per-block, two concurrent transfers; non-trivial = the real code did not refuse the input")
+        "by either side, CON/NON, single-body/per-block, two concurrent transfers (also to one resource, told apart by Request-Tag only); "
+        "non-trivial = the real code did not refuse the input")
 TRUSTED_BASE = ["Lean 4.33 kernel; axioms allowed: propext, Classical.choice, Quot.sound (audited per theorem each run)",
                 "T1 extractor extract/blockconst.c and its renderer", "harness/block.c, harness/block_sim.h, harness/sim_core.h, generators, "
                 "the Python trace oracle (judge_xfer) and string comparison",
-                "M (CoapVerif/Model/Block.lean) is a hand transcription of the Layer A functions; checked against the compiled code only on the cases run"]
+                "M (CoapVerif/Model/Block.lean, BlockCrcv.lean, BlockXmit.lean, BlockRtag.lean) is a hand transcription; checked against the compiled "
+                "code only on the cases run (ops srcv srcv2 srcv3 crcv xmit1 xmit2 and the Layer A ops)"]
 ASSUMPTIONS = ["block numbers < 2^31 at every call of the range functions (coap_get_block_b rejects NUM > 0xFFFFF)",
-               "Layer B: only the server's single-body Block1 receive automaton is under theorems; everything else of the protocol is "
-               "checked as I-vs-S trace conformance only (no M)",
+               "Layer B: receiver and sender automata are proved separately and composed over the lossy network in Model/BlockNet.lean, one "
+               "transfer per direction (Block1: single-body server, one lg_srcv, body < 2^31; "
+               "Block2: datagrams are never removed and a schedule picks any of them any number of times; retransmission timers, "
+               "message ids, tokens abstracted; responses the application builds for a follow-up request without lg_xmit and single-message bodies "
+               "are not generated; adlBody's parameters on the response path are a hypothesis (B2ParOK) which response_path_params_ok proves for rspCfg = what the C computes for a GET carrying Block2; ETags of "
+               "different lg_xmits differ); "
+               "everything else (timers, tokens, several transfers at once, liveness clauses) is checked as I-vs-S trace conformance only",
                "never_wrong_body_partial: every datagram carries the sender's slice for its NUM/SZX, SZX not below the size the receiver tracks, "
                "an announced Size1 is at most the true length, body < 2^31 bytes",
+               "never_wrong_body_block2_partial / at_most_once_block2_partial: every response carries the server's slice for its NUM/SZX with the "
+               "right More bit, in the block size the lg_crcv tracks, with the same Size2 (<= true length, or none) on every response; ETag and "
+               "Content-Format arbitrary; no Observe, Q-Block2, BERT; allocation and coap_send_internal never fail",
+               "client_block1_genuine_partial: no response asks for a larger block size than the lg_xmit uses; body < 2^32 bytes",
+               "release_exactly_once: every deletion site unlinks a list member before coap_block_delete_lg_xmit (checked by reading all 10 sites)",
                "compiled Lean definitions agree with the kernel's reading of them"]
 SPEC_DECISIONS = ["D15 coap_add_data_large_request/_response returning 0 (no room for even the smallest block within the maximum "
                   "message size, after the 43+8 bytes libcoap reserves for Echo and token) is an explicit failure, not a violation of "
@@ -245,11 +285,160 @@ def gen_layer_a(ctx, n_rand):
     return L
 
 
+def gen_crcv(rng, n):
+    """the client's Block2 receive path (real coap_handle_response_get_block): genuine blocks in order / out of order /
+    duplicated / missing / beyond the end, ETag and Content-Format changes, Size2 right / absent / too small, a changed
+    SZX, a wrong More bit, short payloads; both delivery modes"""
+    L = []
+    for _ in range(n):
+        szx = rng.randrange(3) if rng.random() < 0.8 else rng.randrange(7)
+        c = 1 << (szx + 4)
+        ln = rng.choice([rng.randrange(1, 9 * c), rng.randrange(1, 6) * c, rng.randrange(1, 6) * c + 1, rng.randrange(1, 6) * c - 1])
+        nb = (ln + c - 1) // c
+        order = list(range(nb))
+        r = rng.random()
+        if r < 0.25:
+            rng.shuffle(order)
+        elif r < 0.45 and nb > 1:
+            i, j = rng.randrange(nb), rng.randrange(nb)
+            order[i], order[j] = order[j], order[i]
+        for _ in range(rng.choice([0, 0, 1, 2])):
+            order.insert(rng.randrange(len(order) + 1), rng.randrange(nb))
+        if rng.random() < 0.1 and len(order) > 1:
+            del order[rng.randrange(len(order))]
+        if rng.random() < 0.08:
+            order.insert(rng.randrange(len(order) + 1), nb + rng.randrange(2))
+        if rng.random() < 0.15:
+            order += list(range(nb))               # the whole body again (a new transfer once the state is gone)
+        size2 = rng.choice([str(ln), str(ln), "-", "-", str(rng.randrange(ln + 1))])
+        etag = rng.choice([0, 0, 5])
+        fmt = rng.choice([0, 0, 42])
+        noisy = rng.random() < 0.35
+        items = []
+        for k in order:
+            e, f, s = etag, fmt, szx
+            if noisy and rng.random() < 0.12:
+                e = rng.choice([0, 5, 6])
+            if noisy and rng.random() < 0.06:
+                f = rng.choice([0, 42, 50])
+            if noisy and rng.random() < 0.06:
+                s = rng.randrange(7)
+            m = 1 if (k + 1) * (1 << (s + 4)) < ln else 0
+            if noisy and rng.random() < 0.04:
+                m = 1 - m
+            it = "%d.%d.%d.%d.%d" % (k, m, s, e, f)
+            if noisy and rng.random() < 0.06:
+                it += ".%d" % rng.randrange((1 << (s + 4)) + 1)
+            items.append(it)
+        L.append("crcv %d %d %d %s %s" % (rng.choice([1, 1, 0]), ln, rng.randrange(256), size2, ",".join(items)))
+    return L
+
+
+def gen_xmit(rng, n):
+    """the sender side (real coap_handle_request_send_block / coap_handle_response_send_block on a real lg_xmit)"""
+    L = []
+    for _ in range(n):
+        szx = rng.randrange(7)
+        c = 1 << (szx + 4)
+        ln = rng.choice([rng.randrange(1, 9 * c), rng.randrange(1, 6) * c, rng.randrange(1, 6) * c + 1, rng.randrange(1, 6) * c - 1])
+        nb = (ln + c - 1) // c
+        # ---- server, Block2: requests in order / repeated / random / beyond the end / changed size; response PDUs with
+        # plenty of room and with room around the size of a full block (5.00 path)
+        order = list(range(1, nb))
+        r = rng.random()
+        if r < 0.3:
+            rng.shuffle(order)
+        for _ in range(rng.choice([0, 1, 2])):
+            order.insert(rng.randrange(len(order) + 1), rng.randrange(nb + 2))
+        items = []
+        for k in order:
+            s_ = szx if rng.random() < 0.92 else rng.randrange(7)
+            items.append("%d.%d" % (k, s_))
+        mtu2 = rng.choice([1152, 1152, c + rng.randrange(8, 24), rng.randrange(10, c + 40)])
+        if rng.random() < 0.35:
+            # the first response (coap_add_data_large_response) on a small PDU: the server reduces the block size itself
+            mtu1 = rng.choice([rng.randrange(20, 160), rng.randrange(60, 1200), (1 << rng.randrange(4, 11)) + rng.randrange(50, 75)])
+            b = max(0, min(szx, 6, (max(mtu1 - 60, 16)).bit_length() - 5))
+            items = [("%s.%d" % (x.split(".")[0], b)) if rng.random() < 0.9 else x for x in items]
+            L.append("xmit2 %d %d %d %d:%d %s" % (szx, ln, rng.randrange(256), mtu1, rng.choice([1152, mtu1]), ",".join(items) or "-"))
+        L.append("xmit2 %d %d %d %d %s" % (szx, ln, rng.randrange(256), mtu2, ",".join(items) or "-"))
+        # ---- client, Block1: 2.31 in order / duplicated / stale, early renegotiation to a smaller or a LARGER size,
+        # final 2.04, error codes
+        mtu = rng.choice([1152, 1152, 1500, rng.randrange(100, 1300)])
+        cs = rng.choice(["-", "-", str(szx)])
+        ceff = min(c if cs != "-" else 1024, 1 << max(4, (max(mtu - 80, 16)).bit_length() - 1))
+        ln1 = rng.choice([rng.randrange(1, 9 * ceff), rng.randrange(1, 6) * ceff, rng.randrange(1, 6) * ceff + 1])
+        eff = ceff.bit_length() - 5
+        nb1 = (ln1 + ceff - 1) // ceff
+        items = []
+        cur = eff
+        k = 0
+        while k < nb1 and len(items) < 40:
+            last = (k == nb1 - 1)
+            code = 68 if last else 95
+            rr = rng.random()
+            if rr < 0.08 and cur > 0 and not last:               # early / late renegotiation to a smaller size
+                new = rng.randrange(cur)
+                k = ((k + 1) << (cur - new)) - 1
+                cur = new
+                nb1 = (ln1 + (16 << cur) - 1) // (16 << cur)
+                items.append("95.%d.%d" % (k, cur))
+            elif rr < 0.11 and cur < 6:                          # a server asking for a larger size (ignored by the client)
+                items.append("95.%d.%d" % (k, rng.randrange(cur + 1, 7)))
+            else:
+                items.append("%d.%d.%d" % (code, k, cur))
+            if rng.random() < 0.1:
+                items.append(rng.choice([items[-1], "95.%d.%d" % (rng.randrange(k + 1), cur)]))
+            if rng.random() < 0.03:
+                items.append(rng.choice(["141", "136", "68", "95"]))
+            k += 1
+        L.append("xmit1 %s %d %d %d %s" % (cs, ln1, rng.randrange(256), mtu, ",".join(items) or "-"))
+    return L
+
+
+def gen_rtag(rng, n):
+    """Block1 receive path with Request-Tag absent / EMPTY (length 0) / 1..8 bytes: one transfer, and two interleaved
+    transfers to the same resource that only the Request-Tag tells apart (real coap_handle_request_put_block)"""
+    L = []
+    for _ in range(n):
+        szx = rng.randrange(3)
+        c = 1 << (szx + 4)
+        lens = [rng.choice([rng.randrange(c + 1, 7 * c), rng.randrange(2, 6) * c, rng.randrange(2, 6) * c + 1]) for _ in (0, 1)]
+        seeds = rng.sample(range(256), 2)
+        two = rng.random() < 0.6
+        r0 = rng.choice([0, 1, 1, 1, rng.randrange(2, 18)])
+        r1 = rng.choice([x for x in [0, 1, 1, rng.randrange(2, 18), rng.randrange(2, 18)] if x != r0] or [2 if r0 != 2 else 3])
+        if rng.random() < 0.08:
+            r1 = r0                                    # same key: the sender's fault, only M-vs-I is compared
+        seqs = []
+        for t, r in ((0, r0), (1, r1)):
+            nb = (lens[t] + c - 1) // c
+            order = list(range(nb))
+            x = rng.random()
+            if x < 0.2:
+                rng.shuffle(order)
+            elif x < 0.3:
+                order.insert(rng.randrange(len(order) + 1), rng.randrange(nb))
+            elif x < 0.35 and len(order) > 1:
+                del order[rng.randrange(len(order))]
+            seqs.append(["%d.%d.%d.%d.%d" % (t, k, 1 if (k + 1) * c < lens[t] else 0, szx, r) for k in order])
+        if not two:
+            items = seqs[0]
+        else:
+            items = []
+            a, b = list(seqs[0]), list(seqs[1])
+            while a or b:
+                src = a if (a and (not b or rng.random() < 0.5)) else b
+                items.append(src.pop(0))
+        L.append("srcv3 %d %d %d %d %d %d %s" % (rng.choice([0, 0, szx, max(0, szx - 1), 6]), lens[0], seeds[0], lens[1], seeds[1], rng.randrange(2), ",".join(items)))
+    return L
+
+
 def generate(ctx, escalate=False):
     n = 3000 if ctx.thorough() else 400
     if escalate:
         n *= 3
-    return gen_layer_a(ctx, n) + gen_layer_b(ctx, n * 3)
+    return gen_layer_a(ctx, n) + gen_crcv(ctx.rng, n * 2) + gen_xmit(ctx.rng, n) + gen_rtag(ctx.rng, n) + gen_layer_b(ctx, n * 3)
 
 
 # --------------------------------------------------------------------------
@@ -264,6 +453,16 @@ def fnv(b):
     for x in b:
         h = ((h ^ x) * 16777619) & 0xffffffff
     return "%08x" % h
+
+
+def crcv_genuine(w):
+    """a `crcv` line whose responses could come from a libcoap server: every response carries the slice for its NUM/SZX
+    with the right More bit, and the block size never changes during the transfer (coap_handle_request_send_block
+    refuses a changed SZX with 4.00 and echoes the requested one otherwise)"""
+    ln = int(w[2])
+    its = [x.split(".") for x in w[5].split(",")]
+    return all(len(x) == 5 and x[2] == its[0][2] and int(x[1]) == (1 if (int(x[0]) + 1) * (1 << (int(x[2]) + 4)) < ln else 0)
+               for x in its)
 
 
 def spec_layer_a(ctx, c):
@@ -379,6 +578,79 @@ def spec_layer_a(ctx, c):
                     return "the handler was given %s, the sender's body is %d bytes hash %s" % (o, ln, fnv(body))
                 if int(f[1]) != ln and not any(x.split(".")[0] == "0" and x.split(".")[1] == "0" for x in w[5].split(",")):
                     return "the handler was given %s bytes of a %d-byte body" % (f[1], ln)
+    elif op == "crcv":
+        single, ln, seed = int(w[1]), int(w[2]), int(w[3])
+        body = mk_body(ln, seed)
+        its = [x.split(".") for x in w[5].split(",")]
+        genuine = crcv_genuine(w)
+        if genuine:
+            for o in i.split(","):
+                mm = re.match(r"([hH])(\d+):(\d+):(\d+):([0-9a-f]{8})", o)
+                if not mm:
+                    continue
+                kind, off, l, tot, h = mm.group(1), int(mm.group(2)), int(mm.group(3)), int(mm.group(4)), mm.group(5)
+                if single and kind == "H" and (off != 0 or l != ln or h != fnv(body)):
+                    return "the response handler was given %s as the body; the server's body is %d bytes hash %s" % (o, ln, fnv(body))
+                if not single and (off + l > ln and l or h != fnv(body[off:off + l])):
+                    return "the response handler was given %s, which is not a slice of the server's body" % o
+    elif op in ("xmit1", "xmit2"):
+        ln, seed = int(w[2]), int(w[3])
+        body = mk_body(ln, seed)
+        if not re.search(r" rel=1$", i):
+            return "release callback did not run exactly once for the body handed to libcoap: " + i[-40:]
+        parts = re.sub(r" rel=\d+$", "", i).split(" ")
+        outs = [parts[0]] + (parts[2].split(",") if len(parts) > 2 else [])
+        items = [None] + (w[5].split(",") if w[5] != "-" else [])
+        cur = re.search(r" lg=(-?\d+)", i)
+        cur = int(cur.group(1)) if cur else -1
+        larger = False
+        for it, o in zip(items, outs):
+            # a response asking for a LARGER block size than the client currently uses is outside what a libcoap server does
+            # (the client then computes M in the old unit): the More bit is not judged from there on
+            if op == "xmit1" and it and it.count(".") == 2 and int(it.split(".")[2]) > cur:
+                larger = True
+            st = re.search(r"/(\d+)\.\d+\.-?\d+$", o)
+            if st:
+                cur = int(st.group(1))
+            mm = re.match(r"b(\d+)\.(\d+)\.(\d+):(\d+):([0-9a-f]{8})", o)
+            if not mm:
+                continue
+            num, m_, sz, l, h = int(mm.group(1)), int(mm.group(2)), int(mm.group(3)), int(mm.group(4)), mm.group(5)
+            cs = 1 << (sz + 4)
+            if num * cs >= ln or l != min(cs, ln - num * cs) or h != fnv(body[num * cs:num * cs + l]):
+                return "block message %s does not carry the slice of the body for its NUM/SZX" % o
+            if not larger and m_ != (1 if (num + 1) * cs < ln else 0):
+                return "block message %s has the wrong More bit for a %d-byte body" % (o, ln)
+    elif op == "srcv3":
+        lens, seeds = [int(w[2]), int(w[4])], [int(w[3]), int(w[5])]
+        bodies = [mk_body(l, sd) for l, sd in zip(lens, seeds)]
+        its = [tuple(map(int, x.split("."))) for x in w[7].split(",")]
+        keys = [sorted({x[4] for x in its if x[0] == t}) for t in (0, 1)]
+        # the two transfers are told apart by their Request-Tag (absent, EMPTY and every value are different keys)
+        if all(len(k) <= 1 for k in keys) and (not keys[0] or not keys[1] or keys[0] != keys[1]):
+            delivered = [0, 0]
+            for o in i.split(","):
+                if not o.startswith("d"):
+                    continue
+                f = o[1:].split("/")[0].split(":")
+                hit = [t for t in (0, 1) if f[0] == "0" and int(f[1]) == lens[t] and f[3] == fnv(bodies[t])]
+                if not hit:
+                    return "the handler was given %s, which is neither sender's body (%d bytes %s / %d bytes %s)" % (
+                        o, lens[0], fnv(bodies[0]), lens[1], fnv(bodies[1]))
+                delivered[hit[0]] += 1
+            for t in (0, 1):
+                mine = [x for x in its if x[0] == t]
+                if not mine:
+                    continue
+                c_ = 1 << (mine[0][3] + 4)
+                nb = (lens[t] + c_ - 1) // c_
+                # every block of the body arrived exactly once (any order): it must have been delivered exactly once
+                if sorted(x[1] for x in mine) == list(range(nb)) and all(x[3] == mine[0][3] for x in mine) and nb > 1 \
+                        and not (len(w) > 1 and int(w[1]) and int(w[1]) < mine[0][3]):
+                    if [x[1] for x in mine] == list(range(nb)) and delivered[t] != 1:
+                        return "transfer %d (Request-Tag code %d): every block arrived once, in order, yet %d deliveries" % (t, mine[0][4], delivered[t])
+                    if delivered[t] > 1:
+                        return "transfer %d delivered %d times" % (t, delivered[t])
     elif op == "srcv":
         szx, ln, seed = int(w[1]), int(w[2]), int(w[3])
         body = mk_body(ln, seed)
@@ -410,6 +682,16 @@ def judge(ctx, c):
         # a block shorter than the announced size leaves never-written (malloc'd) bytes in the buffer: compare shapes only
         ii = re.sub(r":[0-9a-f]{8}(,|$)", r":*\1", ii)
         m = re.sub(r":[0-9a-f]{8}(,|$)", r":*\1", m or "")
+    if c["input"].startswith("crcv") and c["input"].split()[1] == "1" and not crcv_genuine(c["input"].split()):
+        # short payloads / mixed block sizes leave never-written (malloc'd) bytes in the buffer: compare shapes only
+        ii = re.sub(r":[0-9a-f]{8}", ":*", ii)
+        m = re.sub(r":[0-9a-f]{8}", ":*", m or "")
+    if c["input"].startswith("srcv3"):
+        its = [x.split(".") for x in c["input"].split()[7].split(",")]
+        if {x[4] for x in its if x[0] == "0"} & {x[4] for x in its if x[0] == "1"}:
+            # both senders use the same Request-Tag: their blocks share one lg_srcv, short last blocks leave never-written bytes
+            ii = re.sub(r":[0-9a-f]{8}", ":*", ii)
+            m = re.sub(r":[0-9a-f]{8}", ":*", m or "")
     if ii != m:
         return ("tie", "implementation `%s` but model M says `%s`" % (short(ii), short(m)))
     return None
@@ -417,7 +699,7 @@ def judge(ctx, c):
 
 def parse_xfer(line):
     w = line.split()
-    d = {"dir": w[1], "len": [int(w[2])], "seed": [int(w[3])], "cszx": None if w[4] == "-" else int(w[4]),
+    d = {"dir": "put" if w[1] in ("pute", "putt", "puts") else w[1], "dir0": w[1], "len": [int(w[2])], "seed": [int(w[3])], "cszx": None if w[4] == "-" else int(w[4]),
          "sszx": None if w[5] == "-" else int(w[5]), "mtu": int(w[6]), "con": int(w[7]), "single": int(w[8]), "sched": w[9]}
     if len(w) == 12:
         d["len"].append(int(w[10])); d["seed"].append(int(w[11]))
@@ -475,6 +757,12 @@ def judge_xfer(ctx, c):
             nacks[int(f[1][3]) - 1] += 1
         elif f[0] == "relcount":
             rel = [int(f[1]), int(f[2])]
+    if x["dir0"] == "puts" and ntr == 2:
+        # both transfers go to the same resource: a delivery is attributed to the body it equals
+        for dlv in list(deliveries[0]):
+            if (dlv[2], dlv[3]) == (x["len"][1], fnv(bodies[1])) and (dlv[2], dlv[3]) != (x["len"][0], fnv(bodies[0])):
+                deliveries[0].remove(dlv)
+                deliveries[1].append(dlv)
     nreq = [sum(1 for t in toks if t.startswith("req:%d:" % (k + 1))) for k in range(ntr)]
     exhausted = any(n >= 5 for n in con_tx.values())     # 1 + MAX_RETRANSMIT transmissions of one Confirmable message
     for k in range(ntr):
@@ -545,7 +833,7 @@ def gen_layer_b(ctx, n):
             return "-"
         return "".join(rng.choice("dddddx2" if r < 0.8 else "ddx2x") for _ in range(k))
     for _ in range(n):
-        d = rng.choice(["put", "put", "get", "get"])
+        d = rng.choice(["put", "put", "get", "get", "pute", "putt", "pute"])
         cszx = rng.choice([None, None, 0, 1, 2, 3, 4, 5, 6])
         sszx = rng.choice([None, None, None, 0, 1, 2, 3, 4, 5, 6])
         szx = min(v for v in (cszx, sszx, 6) if v is not None)
@@ -567,6 +855,12 @@ def gen_layer_b(ctx, n):
         if rng.random() < 0.15:
             line += " %d %d" % (max(0, min(65536, 600 * ceff, rng.randrange(kmax + 1) * c + rng.choice([-1, 0, 1]))), rng.randrange(256))
             line = line.replace(" %d " % ln, " %d " % min(ln, 600 * ceff), 1) if ln > 600 * ceff else line
+            if d.startswith("put") and single and rng.random() < 0.5:
+                # two concurrent transfers to ONE resource that only the Request-Tag tells apart (EMPTY vs 1 byte)
+                w_ = line.split()
+                if (w_[2], w_[3]) != (w_[10], w_[11]) and int(w_[2]) > 0 and int(w_[10]) > 0:
+                    w_[1] = "puts"
+                    line = " ".join(w_)
         L.append(line)
     # hand-built Block1 transfers WITHOUT Size1 (a peer that is not libcoap), in order and out of order
     for _ in range(n // 4):
@@ -598,7 +892,7 @@ def classify(c):
 
 
 def search(ctx, tie_breaks, proof):
-    return gen_layer_a(ctx, 1500)
+    return gen_layer_a(ctx, 1500) + gen_crcv(ctx.rng, 3000) + gen_xmit(ctx.rng, 1500) + gen_rtag(ctx.rng, 1500)
 
 
 def known(ctx, c):
